@@ -335,6 +335,36 @@ fn main() {
     });
 
     // S6: sparse tails: head | deciding digit | zeros with one non-zero digit at every position
+    // S6b: the five decision shapes (10..01, 49..9, 50..0, 50..01, 9..9) of the dropped digits at EVERY dropped
+    // length 1..=L
+    let lmax6: usize = tier.pick(2600, 10000);
+    run.bound("S6b_dropped_lengths", format!("1..={}", lmax6));
+    run.par("S6b decision shapes at every dropped length", lmax6, |li| {
+        let l = li + 1;
+        let mut t = Tally::default();
+        for tail in decision_tails(l) {
+            for (head, sign) in [("7", 1), ("86", -1)] {
+                for s in [l as i128, 3] {
+                    let x = Dec { n: big(&format!("{}{}", head, tail)) * sign, s };
+                    let xb = bd(&x);
+                    t.states += 1;
+                    let target = x.s as i64 - l as i64;
+                    for m in MODES {
+                        t.transitions += 1;
+                        t.nontrivial += 1;
+                        if let Some(v) = check(Op::WithScaleRound, &xb, &x, target, m) {
+                            run.report(v);
+                        }
+                    }
+                    t.transitions += 1;
+                    if let Some(v) = check(Op::Round, &xb, &x, target, default_mode) {
+                        run.report(v);
+                    }
+                }
+            }
+        }
+        t
+    });
     let tail_lens: Vec<usize> = if tier.is_thorough() { (0..=72).chain([100, 127, 128, 129, 255, 256, 257, 1023, 1024, 1025, 1100, 1500, 2100, 4100]).collect() } else { (0..=40).chain([63, 64, 65, 257, 1100, 1500]).collect() };
     let tails = sparse_tails(&tail_lens);
     run.bound("S6_tail_lengths", json!(tail_lens));
@@ -387,6 +417,28 @@ fn main() {
                 for m in MODES {
                     t.transitions += 1;
                     if let Some(v) = check(Op::WithScaleRound, &xb, &x, s as i64 - k, m) {
+                        run.report(v);
+                    }
+                }
+            }
+        }
+        t
+    });
+    // S10: structured coefficients (word limits, products crossing word limits, digit patterns at every length,
+    // carry chains, all-ones words) with k written-out trailing zeros x every target inside the digits
+    let st = structured_ints(tier.pick(40, 120), tier.pick(24, 60), run.seed());
+    run.bound("S10_structured_integers", st.len());
+    run.par("S10 structured coefficients with written-out zeros", st.len(), |i| {
+        let mut t = Tally::default();
+        for x in structured_decimals(&st[i..=i], &[2], &[0, 1, 9, 12, 20]) {
+            let xb = bd(&x);
+            let d = ndigits(&x.n) as i64;
+            t.states += 1;
+            for k in 1..d.min(64) {
+                for m in MODES {
+                    t.transitions += 1;
+                    t.nontrivial += 1;
+                    if let Some(v) = check(Op::WithScaleRound, &xb, &x, x.s as i64 - k, m) {
                         run.report(v);
                     }
                 }
